@@ -1462,7 +1462,7 @@ def sensors_fans():
     for base in basenames:
         try:
             current = int(bcat(base + '_input'))
-        except OSError as err:
+        except (OSError, ValueError) as err:
             debug(err)
             continue
         unit_name = cat(os.path.join(os.path.dirname(base), 'name')).strip()
